@@ -2,7 +2,8 @@ package main
 
 // Regenerated module BHS.Gen.WireConsts (C14): what the wire model takes from
 // the code rather than from my reading of it —
-//   - the command table of makeEmptyMessage (go/ast: case label -> concrete type),
+//   - the command table of makeEmptyMessage (go/ast: case label -> concrete type; emitted as an
+//     inductive MsgType + a table of command bytes, so the model dispatches on the code's own types),
 //   - protocol-version thresholds and size limits (compiled values),
 //   - the excessive-block-size the service passes to wire.SetLimits (config),
 //   - MaxPayloadLength(pver) of every modelled message type, evaluated on the
